@@ -126,6 +126,9 @@ def run(ctx):
     heap_orientation(ctx, prog)
     heap_exit_rule(ctx, prog, 'C12-R8')
     sorted_rowsets_rule(ctx, prog)
+    # every ordering decision on rows goes through a confirmed comparator (after seed C12-e: a TopN admission test on the leading key only)
+    from rules.c14_types import datavalue_order_users
+    datavalue_order_users(ctx, prog, 'C12-R10')
     R5 = 'C12-R5'
     ctx.rule(R5, 'an absent LIMIT is not a size: the builder hands TopN / Limit a huge sentinel when the query has no LIMIT, so no '
                  'allocation in those executors may be sized by `limit` (with_capacity*, reserve, vec![_; n]) unless the amount went '
